@@ -7,6 +7,7 @@ THEOREMS = {
         "Dawgs.C18.Props.manifest_describes_files",
         "Dawgs.C18.Props.load_iso",
         "Dawgs.C18.Props.verify_iff_match",
+        "Dawgs.C18.Props.verify_accepts_loaded",
         "Dawgs.C18.Props.verify_gap",
         "Dawgs.C18.Props.c18_partial",
         "Dawgs.C18.Props.c18_full_refuted",
@@ -80,7 +81,7 @@ SPEC = {
     "level": "proof",
     "lean_modules": ["Dawgs.Props.C18"],
     "theorems_by_module": THEOREMS,
-    "gate_modules": ["Dawgs.Model.C18", "Dawgs.Spec.C18", "Dawgs.Proofs.C18", "Dawgs.Props.C18"],
+    "gate_modules": ["Dawgs.Model.C18", "Dawgs.Spec.C18", "Dawgs.Proofs.C18", "Dawgs.Proofs.C18Metrics", "Dawgs.Props.C18"],
     "suites": [
         {"name": "c18", "model_suite": "c18", "monitor_suite": None, "keep_prefix": 2, "thorough_seeds": 2},
         {"name": "obs18", "model_suite": None, "monitor_suite": "c18mon", "keep_prefix": 2, "thorough_seeds": 2, "shrink_budget": 150},
@@ -117,7 +118,7 @@ MANIFEST = {
             "allocator: the keyset scan yields every entity exactly once in id order (short-read and truncation cases explicit), shards partition the "
             "scan (non-empty, <= ShardSize, all but the last full, k*ShardSize gives exactly k files, empty phase gives none), the manifest describes "
             "exactly the files written, load(dump g) is isomorphic to g under the loader's id map (kinds, properties, endpoints, parallel edges as a "
-            "multiset), Verify succeeds iff the compared histograms agree. The model answers are compared line by line with the real "
+            "multiset), Verify accepts the loaded graph and, for any database, succeeds iff the compared histograms agree. The model answers are compared line by line with the real "
             "Dump->Load->Verify on generated databases x codecs x boundary sizes every run; a Lean monitor judges raw observations (recomputed "
             "sha256/byte counts/record counts, directory listing, loaded graph).",
     "note": "Partial clause: 'verification succeeds exactly when the graphs match' is false for the code (metrics fingerprint): refuted in Lean "
